@@ -225,20 +225,11 @@ theorem fr_setRawEndDataEnd (z : Z) (a b : Nat) : fr { z with rawEnd := a, dataE
   induction f generalizing z with
   | zero => rfl
   | succ f ih =>
+    have hr : fr (readByte z).2 = fr z := by simp
+    have hrr : fr (readByte (readByte z).2).2 = fr z := by simp
     simp only [mainLoop]
-    split
-    · grind
-    · split
-      · grind
-      · split
-        · grind
-        · split
-          · grind
-          · split
-            · have : fr (readByte (readByte z).2).2 = fr z := by simp
-              simpa [fr] using this
-            · repeat' split
-              all_goals grind
+    repeat' split
+    all_goals first | grind | (simp only [fr, Prod.mk.injEq] at hr hrr ⊢; simp_all)
 
 /-- `Next` starts the new token exactly where the previous one ended and leaves
 the input and configuration alone. -/
